@@ -42,6 +42,7 @@ class C15(pw.P21Check):
         plan["strict"] = i % 2
         plan["want"] = ["optional", "required-subst", "required-other", "any"][(i // 2) % 4]
         plan["pos"] = r.randint(0, 10 ** 6)
+        plan["spelling"] = r.choice(["$", "$", "$", "empty"])      # the statement: "an unset (`$` or empty) value"
         plan["delivery"] = pw.gen_delivery(r, 2) if r.random() < 0.3 else [{"kind": "whole"}, {"kind": "whole"}]
         return self.finish(plan)
 
@@ -50,7 +51,7 @@ class C15(pw.P21Check):
         text, rn = self.render_model(plan["model"], plan["render"])
         plan["render"] = rn
         sch = self.schema_of(plan)
-        cm, info = null_out(sch, plan["model"], plan["want"], plan["pos"])
+        cm, info = null_out(sch, plan["model"], plan["want"], plan["pos"], plan.get("spelling", "$"))
         plan["applied"] = info
         files = {"twin.p21": text}
         if cm is not None:
@@ -149,6 +150,8 @@ class C15(pw.P21Check):
     def plan_features(self, plan):
         info = plan.get("applied") or {}
         f = ["strict" if plan["strict"] else "lenient", "case:" + str(info.get("case")), "slot-type:" + str(info.get("cat"))]
+        if plan.get("spelling", "$") != "$":
+            f.append("unset-spelled-empty")
         if info.get("in_complex"):
             f.append("target-in-complex-part")
         if info.get("cat") in ("int", "real", "number"):
@@ -166,13 +169,15 @@ class C15(pw.P21Check):
         info = plan.get("applied") or {}
         if info.get("target_id") is None:
             return
+        if plan.get("spelling", "$") != "$":
+            yield self.finish(dict(plan, spelling="$"))
         for c in self.shrink_model(plan, keep_ids=[info["target_id"]]):
             ci = c.get("applied") or {}
             if ci.get("target_id") == info["target_id"] and ci.get("slot") == info["slot"] and ci.get("ent") == info["ent"]:
                 yield c
 
 
-def null_out(sch, model, want, pos):
+def null_out(sch, model, want, pos, spelling="$"):
     insts = model["insts"]
     cands = []
     for n, inst in enumerate(insts):
@@ -208,7 +213,7 @@ def null_out(sch, model, want, pos):
         return None, {}
     n, pi, si, case, kind, cat, inherited, redecl = cands[pos % len(cands)]
     cm = copy.deepcopy(model)
-    cm["insts"][n]["parts"][pi]["vals"][si] = ["null"]
+    cm["insts"][n]["parts"][pi]["vals"][si] = ["null"] if spelling == "$" else ["null", "empty"]
     nv = len(insts[n]["parts"][pi]["vals"])
     info = {"target_id": insts[n]["id"], "ent": insts[n]["parts"][pi]["ent"], "part": pi, "slot": si, "case": case, "kind": kind, "cat": cat,
             "in_complex": len(insts[n]["parts"]) > 1, "inherited": inherited, "redeclared": redecl,
